@@ -14,6 +14,7 @@
 package codec
 
 import (
+	"bytes"
 	"encoding/json"
 	"fmt"
 	"os"
@@ -73,19 +74,28 @@ func (Engine) Run(ctx *hk.RunCtx) error {
 		}
 		ctx.Seed = rp.Seed
 		ctx.Res.Note("replaying mode=%s seed=%d index=%d", mode, rp.Seed, *rp.Index)
+		if mode == "stream" {
+			// a stream case is fully described by its spec
+			setRule(ctx, mode)
+			sp, ok := specFromFile(ctx.Replay)
+			if !ok {
+				sp = genStreamSpec(rp.Seed, *rp.Index)
+			}
+			return runStream(ctx, sp, *rp.Index)
+		}
 		return runOne(ctx, mode, *rp.Index)
 	}
 	switch mode {
 	case "expr", "msg":
 		setRule(ctx, mode)
-		if mode == "expr" {
+		if mode == "expr" && ctx.From == 0 {
 			for i := range fixedExprs() {
 				if err := runOne(ctx, mode, fixedBase+uint64(i)); err != nil {
 					return err
 				}
 			}
 		}
-		for i := 0; i < ctx.N; i++ {
+		for i := ctx.From; i < ctx.From+ctx.N; i++ {
 			if err := runOne(ctx, mode, uint64(i)); err != nil {
 				return err
 			}
@@ -94,31 +104,33 @@ func (Engine) Run(ctx *hk.RunCtx) error {
 	case "e2e":
 		setRule(ctx, mode)
 		return runE2E(ctx, nil)
+	case "stream":
+		setRule(ctx, mode)
+		return runStream(ctx, nil, 0)
 	case "":
-		// all three, shares 90 % / 8 % / 2 %
-		sub := *ctx
-		sub.Mode = "expr"
-		sub.N = ctx.N * 90 / 100
-		if err := (Engine{}).Run(&sub); err != nil {
-			return err
+		// all four, shares 88 % / 8 % / 2 % / 2 %
+		for _, part := range []struct {
+			mode string
+			pct  int
+		}{{"expr", 88}, {"msg", 8}, {"e2e", 2}, {"stream", 2}} {
+			sub := *ctx
+			sub.Mode = part.mode
+			sub.N = ctx.N * part.pct / 100
+			if err := (Engine{}).Run(&sub); err != nil {
+				return err
+			}
 		}
-		sub.Mode = "msg"
-		sub.N = ctx.N * 8 / 100
-		if err := (Engine{}).Run(&sub); err != nil {
-			return err
-		}
-		sub.Mode = "e2e"
-		sub.N = ctx.N * 2 / 100
-		return (Engine{}).Run(&sub)
+		return nil
 	}
 	return fmt.Errorf("codec: unknown mode %q", mode)
 }
 
 func setRule(ctx *hk.RunCtx, mode string) {
 	rules := map[string]string{
-		"expr": "expr: one generated expression tree (or field list) per case, marshalled and unmarshalled by rpc.Codec; distinct by the object-graph dump; non-trivial = the tree has state (EncodedWidth > 0) and at least one node whose decoder restores an unexported field (aggregate, binaryExpr, unaryMathExpr, bounded, ptileOptimized)",
-		"msg":  "msg: one generated message per case; distinct by canonical content; non-trivial = at least one non-zero field besides the discriminator",
-		"e2e":  "e2e: one generated SQL query per case over a fixed data set, answered via rpc client, via the remote-query stream and embedded; distinct by SQL text; non-trivial = the embedded answer has at least one row",
+		"expr":   "expr: one generated expression tree (or field list) per case, marshalled and unmarshalled by rpc.Codec; distinct by the object-graph dump; non-trivial = the tree has state (EncodedWidth > 0) and at least one node whose decoder restores an unexported field (aggregate, binaryExpr, unaryMathExpr, bounded, ptileOptimized)",
+		"msg":    "msg: one generated message per case, round-tripped, plus the ownership contract (the bytes Marshal returned stay valid across later Marshal calls; the decoded message stays valid after the input bytes are overwritten); distinct by canonical content; non-trivial = at least one non-zero field besides the discriminator",
+		"stream": "stream: one gRPC stream of 4-9 generated messages per case (query rows, remote-query results flat/unflat, WAL entries, inserts) between a stub database and the real rpc client/server; distinct by spec; non-trivial = at least one message of 16 KB or more that is followed by another message on the same stream",
+		"e2e":    "e2e: one generated SQL query per case over a fixed data set, answered via rpc client, via the remote-query stream and embedded; distinct by SQL text; non-trivial = the embedded answer has at least one row",
 	}
 	if ctx.Res.Rule != "" {
 		ctx.Res.Rule += "; "
@@ -255,7 +267,7 @@ func caseExpr(ctx *hk.RunCtx, idx uint64) error {
 	}
 
 	// --- the real codec
-	var raw []byte
+	var raw, rawAtReturn []byte
 	var dec expr.Expr
 	var err error
 	if pn := hk.Recover(func() {
@@ -265,6 +277,7 @@ func caseExpr(ctx *hk.RunCtx, idx uint64) error {
 		if err != nil {
 			return
 		}
+		rawAtReturn = append([]byte(nil), raw...)
 		if nFields == 0 {
 			ctx.Res.Hit("container:holder")
 			out := &holder{}
@@ -315,6 +328,14 @@ func caseExpr(ctx *hk.RunCtx, idx uint64) error {
 		return nil
 	}
 
+	// --- ownership: the bytes Marshal handed out are the caller's; later Marshal calls (the
+	// field list, the second hop) must not have touched them
+	ownership := func() {
+		if !bytes.Equal(raw, rawAtReturn) {
+			fail("property", "the byte slice returned by Marshal was modified by a later Marshal call (gRPC keeps it by reference until the frames are written)", nil, nil)
+		}
+	}
+	defer ownership()
 	// --- property oracle: no observer tells them apart
 	if diff := differences(r, orig, dec, t.subs, ctx.Res.Hit); diff != "" {
 		fail("property", "decoded expression differs from the original: "+diff, dump(dec), d)
@@ -357,7 +378,7 @@ func caseExpr(ctx *hk.RunCtx, idx uint64) error {
 	if err := json.Unmarshal(out, &mo); err != nil {
 		return err
 	}
-	implWire, werr := parseWire(raw)
+	implWire, werr := parseWire(rawAtReturn)
 	if werr == nil {
 		implWire, werr = holderField(implWire)
 	}
